@@ -21,7 +21,7 @@ pub enum Top {
 }
 
 /// Array lengths that are instantiated (const generics need a closed set).
-pub const ARRAY_LENS: &[usize] = &[0, 1, 2, 3, 4, 5, 6, 7, 8, 12, 16, 256, 300];
+pub const ARRAY_LENS: &[usize] = &[0, 1, 2, 3, 4, 5, 6, 7, 8, 12, 13, 16, 256, 300];
 
 /// An element a combinator hands back: an ordinary tracked value, or a raw
 /// (destructor-less) handle that is adopted again here.
@@ -178,6 +178,7 @@ macro_rules! array_match {
             7 => { let $a: [_; 7] = v.try_into().ok().unwrap(); $body }
             8 => { let $a: [_; 8] = v.try_into().ok().unwrap(); $body }
             12 => { let $a: [_; 12] = v.try_into().ok().unwrap(); $body }
+            13 => { let $a: [_; 13] = v.try_into().ok().unwrap(); $body }
             16 => { let $a: [_; 16] = v.try_into().ok().unwrap(); $body }
             256 => { let $a: [_; 256] = v.try_into().ok().unwrap(); $body }
             300 => { let $a: [_; 300] = v.try_into().ok().unwrap(); $body }
